@@ -17,9 +17,11 @@
      through a slice produces a new list (aliasing between slices that share
      a backing array is NOT modelled here; the heap model of C05 does that);
    * Go floats are carried as IEEE bit patterns tagged with their width
-     ([gofl]); widening float32 -> float64 keeps the tag (it is exact),
-     narrowing a genuine float64 is [Unsup]. *)
-From Verif Require Import Base.Prelude Base.Decimal.
+     ([gofl]); float32 -> float64 is the exact conversion on bit patterns
+     (Base/FloatBits.v), float64 -> float32 is defined only for values that
+     are exactly representable (otherwise [Unsup]); comparisons across
+     widths are [Unsup]; no float arithmetic. *)
+From Verif Require Import Base.Prelude Base.Decimal Base.FloatBits.
 Open Scope Z_scope.
 
 Inductive res (A : Type) := Ok (a : A) | Panic | Fuel | Unsup.
@@ -98,10 +100,12 @@ Definition fl_lt (a b : gofl) : bool := negb (fl_isnan a) && negb (fl_isnan b) &
 Definition fl_le (a b : gofl) : bool := negb (fl_isnan a) && negb (fl_isnan b) && (fl_key a <=? fl_key b).
 Definition fl_eq (a b : gofl) : bool := negb (fl_isnan a) && negb (fl_isnan b) && (fl_key a =? fl_key b).
 Definition fl_same_width (a b : gofl) : bool := Bool.eqb (fl32 a) (fl32 b).
-(* float64(x): exact, keeps the tag; float32(x): identity on a value that is a widened float32 *)
-Definition fl_to64 (f : gofl) : gofl := f.
-Definition fl_to32_ok (f : gofl) : bool := fl32 f.
-Definition fl_to32 (f : gofl) : gofl := f.
+(* float64(x) of a float32: the exact conversion [widen]; float32(x) of a float64: defined (and then exact) only
+   when x is representable as a float32 ([narrow]); anything else is outside the subset (Unsup) *)
+Definition fl_to64 (f : gofl) : gofl := if fl32 f then {| fl32 := false; flbits := widen (flbits f) |} else f.
+Definition fl_to32_ok (f : gofl) : bool := if fl32 f then true else match narrow (flbits f) with Some _ => true | None => false end.
+Definition fl_to32 (f : gofl) : gofl :=
+  if fl32 f then f else {| fl32 := true; flbits := match narrow (flbits f) with Some b => b | None => 0%N end |}.
 
 (* ---------- the standard-library calls the translated code makes ---------- *)
 Definition strconv_AppendInt (dst : list N) (v : Z) : list N := dst ++ print_Z v.
